@@ -5,7 +5,7 @@
 From Coq Require Import List NArith Bool.
 From GS Require Import Errs LTS Composite CompositeMon CompositeBase CompositeC10 CompositeC11
      CompositeLocks CompositeLive CompositeC09 CompositeProgress CompositeProto CompositeC10b CompositeMeasure CompositeC10c CompositeTrace CompositeLink2
-     CompositeMonLink.
+     CompositeMonLink CompositeC10d.
 Import ListNotations.
 
 (* nil and cancellation exits never reach the error channel (C10_benign): every queued value is
@@ -374,3 +374,145 @@ Example C10_monitor_clause2_prefix_witness : exists s,
   run (step m_pool) init (firstn 10 m_sched_obs) = Some s /\
   C10_holdsb m_pool (obs_trace obs (firstn 10 m_sched_obs)) = 2%N.
 Proof. eexists. split; vm_compute; reflexivity. Qed.
+
+(* ---------------------------------------------------------------------------------------------
+   "its state becomes Error" at full strength: for every pool, every schedule, WHATEVER Reload() is in
+   progress (in place, restarting, waiting for reloadMu) at the instant Run() handles the failure.
+   (proofs/CompositeC10d.v; the same fact is the second conjunct of C10_propagates, stated here on
+   its own, together with its counterpart about Run()'s result.)
+   --------------------------------------------------------------------------------------------- *)
+
+(* in every reachable state in which Run() has taken a child's failure from serverErrors, and in every
+   reachable state in which Run()'s result (computed, published or returned) wraps ErrRunnableFailed, the
+   state is Error.  "Reachable" includes every continuation: no later step of a Reload() in flight - its
+   Transition(Running) is refused from Error - nor a later Reload()/Stop() call leaves Error. *)
+Theorem C10_failure_state_error : forall P s, reach P s ->
+  (took s <> None \/
+   exists x, result_of (runt s) = Some (Some x) /\ wraps x id_runnable_failed = true) ->
+  fsm s = FError.
+Proof. exact failure_state_error. Qed.
+
+(* more generally (C08's "Error otherwise" in the full composite model): ANY non-nil result of Run() comes
+   with the state Error *)
+Theorem C10_error_result_state_error : forall P s x, reach P s ->
+  result_of (runt s) = Some (Some x) -> fsm s = FError.
+Proof. exact error_result_state_error. Qed.
+
+(* clause 7 of the executable monitor ("Run()'s result wraps ErrRunnableFailed => every state observed
+   after Run() returned is Error") holds on the observable trace of every schedule of the model, hence
+   (accept_sound) on every accepted implementation trace unless the property fails *)
+Theorem C10_monitor_clause7_link : forall P ls s,
+  run (step P) init ls = Some s -> failed_state_ok (obs_trace obs ls) = true.
+Proof. exact c10_clause7_link. Qed.
+
+Theorem C10_monitor_never_clause7 : forall P ls s,
+  run (step P) init ls = Some s -> C10_holdsb P (obs_trace obs ls) <> 7%N.
+Proof. exact c10_holdsb_not_7. Qed.
+
+Print Assumptions C10_failure_state_error.
+Print Assumptions C10_error_result_state_error.
+Print Assumptions C10_monitor_clause7_link.
+Print Assumptions C10_monitor_never_clause7.
+
+(* Schedules in which the failure is handled WHILE a Reload() is in progress (hypotheses of the theorems
+   above all hold: the states are reachable and took <> None).  [m_pool]: child 0 returns on signal, child
+   1 may return anything at any time; both have ReloadWithConfig and a blocking Stop. *)
+
+(* (a) in-place reload, blocked inside child 0's ReloadWithConfig when child 1 fails: Run() forces Error
+   while the state was Reloading; the reload's final Transition(Running) is refused; Error at return *)
+Definition fr_inplace : list label :=
+  [LRunCall; LRunBegin; LBootLock ORun; LCb ORun (CbSome [(0, 0); (1, 0)]%N); LBootLaunch ORun; LToRunning;
+   LKRun 0 0%N; LKRun 1 1%N;
+   LReloadCall 0; LRlLock 0; LCb (ORel 0) (CbSome [(0, 1); (1, 1)]%N); LRlSetInPlace 0; LRlCfg 0 0%N 1%N;
+   LKExit 1 1%N (Some (Errs.Leaf 7%N)); LKSend 1; LSelErr;
+   LRlCfg 0 1%N 1%N; LRlFinish 0; LRlRet 0;
+   LTearLock; LStopBegin ORun; LWCall 0 1%N; LWCall 1 0%N; LWUnblock 0; LWRet 0 1%N;
+   LKExit 0 0%N None; LWUnblock 1; LWRet 1 0%N; LStopCancel ORun; LStopJoin ORun; LRunExit;
+   LRunRet (Some (fail_result (Wrap (Errs.Leaf 7%N))))].
+
+Example C10_failure_during_inplace_reload : exists s1 s2 s3,
+  run (step m_pool) init (firstn 15 fr_inplace) = Some s1 /\
+  fsm s1 = FReloading /\ reload_mu s1 = Some (ORel 0) /\ rel_pc 0 s1 = Some (RInPlace 1) /\ runt s1 = TSelect /\
+  run (step m_pool) init (firstn 16 fr_inplace) = Some s2 /\
+  took s2 = Some (Wrap (Errs.Leaf 7%N)) /\ fsm s2 = FError /\ reload_mu s2 = Some (ORel 0) /\
+  run (step m_pool) init fr_inplace = Some s3 /\
+  runt s3 = TDone (Some (fail_result (Wrap (Errs.Leaf 7%N)))) /\ fsm s3 = FError /\ rel_pc 0 s3 = Some RDone /\
+  C10_holdsb m_pool (obs_trace obs (fr_inplace ++ [LState FError])) = 0%N /\
+  C10_holdsb m_pool (obs_trace obs (firstn 8 fr_inplace ++ LState FRunning :: skipn 8 fr_inplace) ++ [EState FRunning]) = 5%N /\
+  C10_holdsb m_pool (obs_trace obs fr_inplace ++ [EState FRunning]) = 7%N.
+Proof.
+  eexists. eexists. eexists.
+  split; [vm_compute; reflexivity|]. do 4 (split; [reflexivity|]).
+  split; [vm_compute; reflexivity|]. do 3 (split; [reflexivity|]).
+  split; [vm_compute; reflexivity|]. do 3 (split; [reflexivity|]).
+  split; [vm_compute; reflexivity|]. split; vm_compute; reflexivity.
+Qed.
+
+(* (b) membership-changing reload ([0;1] -> [0]): child 1 returns a real error when the reload stops it;
+   the report is handled while the reloader is in the drain of its stopAllRunnables; the reload then stores
+   the configuration and boots the new generation, its Transition(Running) is refused; Run() stops the new
+   generation and returns the failure; Error throughout *)
+Definition fr_restart : list label :=
+  [LRunCall; LRunBegin; LBootLock ORun; LCb ORun (CbSome [(0, 0); (1, 0)]%N); LBootLaunch ORun; LToRunning;
+   LKRun 0 0%N; LKRun 1 1%N;
+   LReloadCall 0; LRlLock 0; LCb (ORel 0) (CbSome [(0, 1)]%N);
+   LStopBegin (ORel 0); LWCall 0 1%N; LWCall 1 0%N; LKExit 1 1%N (Some (Errs.Leaf 7%N));
+   LWUnblock 0; LWRet 0 1%N; LKExit 0 0%N None; LWUnblock 1; LWRet 1 0%N; LStopCancel (ORel 0);
+   LKSend 1; LSelErr;
+   LStopJoin (ORel 0); LRlSetCfg 0; LBootLock (ORel 0); LBootLaunch (ORel 0); LRlFinish 0; LRlRet 0;
+   LKRun 2 0%N;
+   LTearLock; LStopBegin ORun; LWCall 2 0%N; LKExit 2 0%N None; LWUnblock 2; LWRet 2 0%N;
+   LStopCancel ORun; LStopJoin ORun; LRunExit; LRunRet (Some (fail_result (Wrap (Errs.Leaf 7%N))))].
+
+Example C10_failure_during_restart_reload : exists s1 s2,
+  run (step m_pool) init (firstn 23 fr_restart) = Some s1 /\
+  took s1 = Some (Wrap (Errs.Leaf 7%N)) /\ fsm s1 = FError /\ reload_mu s1 = Some (ORel 0) /\
+  rel_pc 0 s1 = Some RStopDrain /\
+  run (step m_pool) init fr_restart = Some s2 /\
+  runt s2 = TDone (Some (fail_result (Wrap (Errs.Leaf 7%N)))) /\ fsm s2 = FError /\ rel_pc 0 s2 = Some RDone /\
+  gen s2 = 2 /\ forallb kdone (kids s2) = true.
+Proof.
+  eexists. eexists.
+  split; [vm_compute; reflexivity|]. do 4 (split; [reflexivity|]).
+  split; [vm_compute; reflexivity|]. repeat split; reflexivity.
+Qed.
+
+(* (c) a Reload() waits for reloadMu, which Run() holds for its failure teardown: it cannot begin before
+   Run() has left stopAllRunnables; its Transition(Reloading) is then refused from Error *)
+Definition fr_waiting : list label :=
+  [LRunCall; LRunBegin; LBootLock ORun; LCb ORun (CbSome [(0, 0); (1, 0)]%N); LBootLaunch ORun; LToRunning;
+   LKRun 0 0%N; LKRun 1 1%N;
+   LKExit 1 1%N (Some (Errs.Leaf 7%N)); LKSend 1; LSelErr; LTearLock; LReloadCall 0;
+   LStopBegin ORun; LWCall 0 1%N; LWCall 1 0%N; LWUnblock 0; LWRet 0 1%N;
+   LKExit 0 0%N None; LWUnblock 1; LWRet 1 0%N; LStopCancel ORun; LStopJoin ORun;
+   LRlLock 0; LRlRet 0; LRunExit; LRunRet (Some (fail_result (Wrap (Errs.Leaf 7%N))))].
+
+Example C10_failure_with_reload_waiting : exists s1 s2,
+  run (step m_pool) init (firstn 13 fr_waiting) = Some s1 /\
+  reload_mu s1 = Some ORun /\ step m_pool s1 (LRlLock 0) = None /\ fsm s1 = FError /\
+  run (step m_pool) init fr_waiting = Some s2 /\
+  runt s2 = TDone (Some (fail_result (Wrap (Errs.Leaf 7%N)))) /\ fsm s2 = FError /\
+  option_map r_path (nth_error (reloaders s2) 0) = Some PFailedFsm.
+Proof.
+  eexists. eexists.
+  split; [vm_compute; reflexivity|]. do 3 (split; [reflexivity|]).
+  split; [vm_compute; reflexivity|]. repeat split; reflexivity.
+Qed.
+
+(* a child that returns a real error in reaction to Stop(): Stop() has won Run()'s select, the error is
+   queued and never read, Run() returns nil and the state is Stopped (C10_preempted_nonvacuous above is
+   the same outcome with a failure that preceded the Stop()) *)
+Definition fr_stoperr : list label :=
+  firstn 8 m_sched ++
+  [LStopApi 0; LSSignal 0; LSelStop; LTransIf; LTearLock; LStopBegin ORun; LWCall 0 1%N; LWCall 1 0%N;
+   LKExit 1 1%N (Some (Errs.Leaf 7%N)); LKSend 1; LWUnblock 0; LWRet 0 1%N;
+   LKExit 0 0%N None; LWUnblock 1; LWRet 1 0%N; LStopCancel ORun; LStopJoin ORun; LToStopped; LRunExit;
+   LRunRet None; LSRet 0].
+
+Example C10_error_on_stop : exists s,
+  run (step m_pool) init fr_stoperr = Some s /\
+  runt s = TDone None /\ fsm s = FStopped /\ errq s = [Wrap (Errs.Leaf 7%N)] /\ took s = None /\ fail_sent s = true /\
+  C10_holdsb m_pool (obs_trace obs (fr_stoperr ++ [LState FStopped])) = 0%N.
+Proof.
+  eexists. split; [vm_compute; reflexivity|]. do 5 (split; [reflexivity|]). vm_compute. reflexivity.
+Qed.
